@@ -47,6 +47,7 @@ struct GenOpt {
   bool hemi = true;                                   // elements: also produce the -q representative
   double nearPiMin = 1e-6;                            // closest approach to pi
   bool tinyTheta = true;                              // allow denormal / underflowing magnitudes
+  double exactCoeff = 0;                              // probability of rotation data given by exact coefficients (pure quaternions w = +-0, signed zeros, 3-4-5 values)
 };
 
 // rotation magnitude: superset of strata, NOT read from the code under test
@@ -165,6 +166,20 @@ template <class S> void genElementBlock(const ref::Elem& e, Prng& r, const GenOp
     // axis is unit only to double precision: renormalise in long double before rounding
     LD n = std::sqrt(q[0] * q[0] + q[1] * q[1] + q[2] * q[2] + q[3] * q[3]);
     for (int i = 0; i < 4; ++i) { q[i] /= n; if (neg) q[i] = -q[i]; c[e.rotCoef + i] = (S)q[i]; }
+  }
+  if (o.exactCoeff > 0 && e.rot && r.coin(o.exactCoeff)) {
+    // elements a user writes down by coefficients rather than by angle: exact zeros (of either sign) where an angle would give 6e-17
+    static const double Q[][4] = {{1, 0, 0, 0}, {0, 1, 0, 0}, {0, 0, 1, 0}, {0.6, 0, 0.8, 0}, {-0.6, 0.8, 0, 0}, {0, -0.28, 0.96, 0}, {0, 0, 0, 1}, {0, 0, 0, -1},
+                                  {0.5, 0.5, 0.5, 0.5}, {0.5, -0.5, 0.5, -0.5}, {0.6, 0, 0, 0.8}, {0, 0.8, 0, -0.6}, {0, 0, 0.28, 0.96}, {0.96, 0, 0, -0.28}};
+    static const double C[][2] = {{-1, 0}, {0, 1}, {0, -1}, {1, 0}, {0.6, 0.8}, {-0.6, 0.8}, {-0.8, -0.6}, {0.28, -0.96}, {-0.96, 0.28}};
+    for (int attempt = 0; attempt < 20; ++attempt) {
+      double ang; double vals[4]; int n = e.rot == 3 ? 4 : 2;
+      if (e.rot == 3) { int q = r.below((int)(sizeof Q / sizeof Q[0])); for (int k = 0; k < 4; ++k) vals[k] = Q[q][k]; ang = 2 * std::atan2(std::sqrt(vals[0] * vals[0] + vals[1] * vals[1] + vals[2] * vals[2]), std::fabs(vals[3])); neg = vals[3] < 0; }
+      else { int q = r.below((int)(sizeof C / sizeof C[0])); vals[0] = C[q][0]; vals[1] = C[q][1]; ang = std::fabs(std::atan2(vals[1], vals[0])); }
+      if (ang > o.thetaMax) continue;
+      for (int k = 0; k < n; ++k) { double v = vals[k]; if (v == 0 && r.coin(0.5)) v = -0.0; c[e.rotCoef + k] = (S)v; }
+      th = ang; break;
+    }
   }
   double mag = stratified ? sampleLinMag(r, o.linMax) : r.uni(0, 2);
   if (e.kind == ref::K_RN) { std::vector<double> v(e.dof); linVec(r, e.dof, mag, nullptr, v.data()); for (int i = 0; i < e.dof; ++i) c[i] = (S)v[i]; }
